@@ -144,17 +144,35 @@ def run(ctx: Ctx, rs: RuleSet, tier: str):
   frame_rule(ctx, rs, rule, f'{SEL}.TagSelection.replace', 'self.tag')
   # TagSelection.__iter__ uses the same predicate
   it = ctx.func(f'{SEL}.TagSelection.__iter__')
-  ok = False
-  for n in walk_function(it.node):
-    if isinstance(n, ast.If) and isinstance(n.test, ast.Call) and unparse(
-        n.test.func) == 'any':
-      ge = n.test.args[0]
-      c = ge.elt
-      ok = (isinstance(c, ast.Call) and unparse(c.func) == 'issubclass' and
-            unparse(c.args[1]) == 'self.tag' and
+  from fdlstatic import dispatch
+  gi = ctx.cfg(it)
+  # the tag sets iterated: `for <key>, <tags> in X.__argument_tags__.items()`
+  tag_vars = {unparse(n.target.elts[1]) for n in walk_function(it.node)
+              if isinstance(n, ast.For) and isinstance(
+                  n.target, ast.Tuple) and len(n.target.elts) == 2 and unparse(
+                      n.iter).endswith('.__argument_tags__.items()')}
+
+  def matches(v):
+    def ev(t):
+      if isinstance(t, ast.Call) and unparse(t.func) == 'any' and len(
+          t.args) == 1 and isinstance(t.args[0], (ast.GeneratorExp,
+                                                  ast.ListComp)):
+        ge = t.args[0]
+        c = ge.elt
+        if (isinstance(c, ast.Call) and unparse(c.func) == 'issubclass' and
+            len(c.args) == 2 and unparse(c.args[1]) == 'self.tag' and
             unparse(c.args[0]) == unparse(ge.generators[0].target) and
-            any(isinstance(s, (ast.Yield,)) for b in n.body
-                for s in ast.walk(b)))
+            unparse(ge.generators[0].iter) in tag_vars and
+            not ge.generators[0].ifs):
+          return v
+      return None
+    return ev
+
+  yields = [n for n in gi.nodes() if any(
+      isinstance(e, ast.Yield) for e in cfg_lib.walk_node(gi, n))]
+  no_match = dispatch.reach_atoms(gi, matches(False))
+  ok = bool(yields) and bool(tag_vars) and not any(
+      y in no_match for y in yields)
   rs.check(ok, rule, f'{it.qualname}:predicate',
            'yields under any(issubclass(t, self.tag) for t in <own tag set>)',
            ctx.loc(it, it.node))
@@ -181,6 +199,12 @@ def run(ctx: Ctx, rs: RuleSet, tier: str):
             s.func, ast.Attribute) and s.func.attr == 'update' and unparse(
                 s.args[0]) == unparse(n.target):
           ok_union = True
+  for c in ctx.calls(lt):
+    # <set>.update(*X.__argument_tags__.values())
+    if isinstance(c.func, ast.Attribute) and c.func.attr == 'update' and len(
+        c.args) == 1 and isinstance(c.args[0], ast.Starred) and unparse(
+            c.args[0].value).endswith('.__argument_tags__.values()'):
+      ok_union = True
   rs.check(ok_walk and ok_union, rule, f'{lt.qualname}:union',
            'unions __argument_tags__.values() of every Buildable reached by '
            'daglish.iterate(root)', ctx.loc(lt, lt.node))
